@@ -162,14 +162,16 @@ fn run_inner(rng: &mut Rng, dir: &str) -> CaseOut {
     };
     // formulae
     let extended = rng.chance(2, 5);
+    // names of the context sets: lower case, capitals, digits, names that are also network variables / keywords
+    let (lp, lq, ld): (&str, &str, &str) = *rng.pick(&[("p", "q", "d"), ("P", "Q_x", "Dom"), ("Target", "q2", "D1"), ("a", "EX", "in"), ("p", "Q", "d")]);
     let mut fopts = FormOpts::plain();
     fopts.bin_ops = ALL_BIN.to_vec();
     fopts.max_size = 8;
     fopts.max_quant_depth = rng.range(0, 2);
     fopts.hybrids = fopts.max_quant_depth > 0;
     if extended {
-        fopts.wild_props = vec!["p".to_string(), "q".to_string()];
-        fopts.domains = vec!["d".to_string()];
+        fopts.wild_props = vec![lp.to_string(), lq.to_string()];
+        fopts.domains = vec![ld.to_string()];
         fopts.domain_pct = 40;
     }
     // now and then a file without any formula (comments / blank lines only)
@@ -182,15 +184,15 @@ fn run_inner(rng: &mut Rng, dir: &str) -> CaseOut {
         for f in forms.iter_mut() {
             if rng.coin() {
                 *f = match rng.below(4) {
-                    0 => bin(Bin::And, wild("p"), f.clone()),
-                    1 => bin(Bin::Or, wild("q"), f.clone()),
-                    2 => un(Un::EF, wild("p")),
-                    _ => bin(Bin::EU, wild("p"), f.clone()),
+                    0 => bin(Bin::And, wild(lp), f.clone()),
+                    1 => bin(Bin::Or, wild(lq), f.clone()),
+                    2 => un(Un::EF, wild(lp)),
+                    _ => bin(Bin::EU, wild(lp), f.clone()),
                 };
             }
         }
         if !no_formulae && forms.iter().all(|f| f.quant_depth() == 0) {
-            forms.push(hyb(Hyb::Bind, "x", Some("d"), un(Un::EX, var("x"))));
+            forms.push(hyb(Hyb::Bind, "x", Some(ld), un(Un::EX, var("x"))));
         }
     }
     let mut style = Style::default();
@@ -267,8 +269,8 @@ fn run_inner(rng: &mut Rng, dir: &str) -> CaseOut {
     let context_path = format!("{dir}/context.zip");
     let mut ctx: LabelToSetMap = HashMap::new();
     if extended || matches!(error_kind, Some("missing_label")) {
-        for l in ["p", "q", "d"] {
-            if error_kind == Some("missing_label") && l == "p" {
+        for l in [lp, lq, ld] {
+            if error_kind == Some("missing_label") && l == lp {
                 continue;
             }
             sets.insert(l.to_string(), gen_explicit_set(rng, &world).0);
@@ -279,8 +281,8 @@ fn run_inner(rng: &mut Rng, dir: &str) -> CaseOut {
             return out;
         }
         out.count("with_context_archive");
-        if error_kind == Some("missing_label") && !texts.iter().any(|t| t.contains("%p%")) {
-            file_texts.push("EF %p%".to_string());
+        if error_kind == Some("missing_label") && !texts.iter().any(|t| t.contains(&format!("%{lp}%"))) {
+            file_texts.push(format!("EF %{lp}%"));
             std::fs::write(&formulae_path, file_texts.join("\n")).unwrap();
         }
     }
